@@ -395,6 +395,11 @@ def run(repo: Repo, rep: Report, tier: str) -> None:
               f"the collision-box estimate is returned without consulting the tile size first; it differs for {len(differing)} prototypes, e.g. {sorted(differing)[:6]}: such entities are "
               "placed with the wrong footprint and land half a tile off", gf9.loc(coll_rets[0]))
 
+    # ---------------- R7 ---------------------------------------------------------------
+    from .shared import borrow as _borrow9
+    _borrow9(repo, rep, "C16", "C16-R1", "C09-R7", "every iteration of a loop that executes a `place` contributes its entity: the iteration values are exactly start, start+step, ... "
+             "strictly before stop (the last partial step included)", floor=2)
+
 
 
 def _deep(du: DefUse, e: ast.AST, depth: int = 0) -> list[ast.AST]:
